@@ -18,7 +18,7 @@ def fisher_rows(p):
             comp = 3
             x = np.linspace(0.5, 3.0, 24)
             s = np.full_like(x, 0.2)
-            names_all = ["1", "x", "x**2", "1/x", "x**3", "sqrt(x)"]
+            names_all = ["1", "x", "x**2", "1/x", "x**3", "sqrt(x)", "exp(-x)", "log(x)"]          # up to 8 parameter columns
             funs, thetas, nlls = [], [], []
             for k in range(0, K + 1):
                 names = names_all[:k]
